@@ -199,6 +199,10 @@ def run(fx, tier):
                 'replies are routed with (control byte & 0xF0, id decoded from this packet, this packet\'s span)',
                 key='C01:R-DOM:assemble_op::dispatch', where=f.file)
     fast_reply_rules(fx, v, 'C01')
+    # the acknowledged PUBLISH is the one the caller passed: a retransmission differs from it in the DUP bit only
+    from c03 import set_dup_rule
+    v.rule('R-OWN', 'set_dup changes exactly the DUP bit of the stored packet; nothing else writes the stored bytes')
+    set_dup_rule(fx, v, 'C01')
     v.expect_min('R-CGRAPH', 6, 'success-capable completions')
     v.expect_min('R-FLOW', 40, 'reason code / props / span / wait / encode sites')
     v.expect_min('R-DOM', 15, 'matching predicates × TUs')
